@@ -101,17 +101,19 @@ func splitAndCheck(name) (r)
 // public unicast address. The table of non-public ranges is the one the contract documents: 0/8, 10/8, 127/8,
 // 169.254/16, 172.16/12, 192.168/16, 224/3 and host parts 0 and 255 in the last byte.
 pure digit(c Int) Bool = c >= 48 && c <= 57
-pure canonByte(f Bytes) Bool = len(f) >= 1 && (forall i Int {f[i]} :: 0 <= i && i < len(f) ==> digit(f[i]))
+pure canonByte(f Bytes) Bool = len(f) >= 1 && len(f) <= 3 && (forall i Int {f[i]} :: 0 <= i && i < len(f) ==> digit(f[i]))
      && (len(f) == 1 || f[0] != 48) && atoi10(f) <= 255
 pure publicV4(a Int, b Int, d Int) Bool = !(a == 0 || a == 10 || a == 127 || a >= 224 || (a == 169 && b == 254)
      || (a == 172 && 16 <= b && b <= 31) || (a == 192 && b == 168) || d == 0 || d == 255)
 pure ipv4(data Bytes) Bool = len(split(data, ".")) == 4
-     && (forall i Int {split(data, ".")[i]} :: 0 <= i && i < 4 ==> canonByte(split(data, ".")[i]))
+     && canonByte(split(data, ".")[0]) && canonByte(split(data, ".")[1]) && canonByte(split(data, ".")[2]) && canonByte(split(data, ".")[3])
      && publicV4(atoi10(split(data, ".")[0]), atoi10(split(data, ".")[1]), atoi10(split(data, ".")[3]))
 
 func checkIPv4(data) (r)
   pure
+  nofault given ipv4(data)
   ensures [C18] r ==> ipv4(data)
+  ensures [C18] ipv4(data) ==> r
   loop 0
     invariant l == len(data) && fragments == split(data, ".") && len(fragments) == 4 && len(numbers) == 4
     invariant forall j Int {fragments[j]} :: 0 <= j && j < $i ==> canonByte(fragments[j]) && numbers[j] == atoi10(fragments[j])
